@@ -196,14 +196,14 @@ public:
   /// \brief Computes the von Mises stress of this stress tensor using the von Mises yield
   /// criterion.
   [[nodiscard]] constexpr ScalarStress<NumericType> VonMises() const {
-    return ScalarStress<NumericType>{std::sqrt(
+    return ScalarStress<NumericType>{static_cast<NumericType>(std::sqrt(
         0.5
         * (std::pow(this->value.xx() - this->value.yy(), 2)
            + std::pow(this->value.yy() - this->value.zz(), 2)
            + std::pow(this->value.zz() - this->value.xx(), 2)
            + 6.0
                  * (std::pow(this->value.xy(), 2) + std::pow(this->value.xz(), 2)
-                    + std::pow(this->value.yz(), 2))))};
+                    + std::pow(this->value.yz(), 2)))))};
   }
 
   constexpr Stress<NumericType> operator+(const Stress<NumericType>& stress) const {
